@@ -11,7 +11,7 @@ PROP = "C13"
 TARGETS = ["IbicusModel.Props.C13"]
 GEN = []
 
-ERRNAME = {G.M_ERR: "ProbeError", G.M_ERR2: "ProbeError2"}
+ERRNAME = G.ERRNAME
 
 
 def check_failsafe_on(label, r, clean, S, cells, out_T, problems, case):
@@ -63,6 +63,9 @@ def run(tier, res, force_search=False):
         f"process start, pickling and logging are runtime behaviour and are not modelled (start method observed: {G.start_method()})",
         "a 'failure' is an exception raised inside apply_location; a location that returns a series of the wrong length is not caught by failsafe mode "
         "(the assignment is outside the try) — stated as Props.C05.wrong_length_no_array and excluded here",
+        "failures are exceptions derived from Exception, of every realistic shape (message, no arguments / bare assert, non-string arguments, empty message, "
+        "__str__ that raises); classes derived directly from BaseException (KeyboardInterrupt, SystemExit, GeneratorExit) are not caught by the code's "
+        "`except Exception` by design and are out of scope; in the Lean model the error value is abstract (any type ε)",
         "the non-failing cells' results are compared with a clean run on the same data without the planted failure (cell independence: C05)",
     ]
     lean_ok = C.lean_phase(res, PROP, GEN, TARGETS)
@@ -73,6 +76,7 @@ def run(tier, res, force_search=False):
     grids = [(2, 2)] if tier == "quick" else [(2, 3), (2, 2), (1, 3), (3, 1), (1, 1)]
     nprocs_all = (1, 2, 3)
     exhaustive = []
+    shapes_seen = {}
     for (nx, ny) in grids:
         cells = [(i, j) for i in range(nx) for j in range(ny)]
         for kind in ("deb", "dc"):
@@ -93,9 +97,10 @@ def run(tier, res, force_search=False):
                 obs, hist, fut = obs0.copy(), hist0.copy(), fut0.copy()
                 drive = obs if kind == "dc" else fut
                 marks = {}
-                for n, c in enumerate(S):  # alternate the two exception classes so that "which cell's exception" is observable
-                    marks[c] = G.M_ERR if (n + len(S)) % 2 == 0 else G.M_ERR2
+                for n, c in enumerate(S):  # deal out the exception shapes (message, no args, bare assert, non-string args, unprintable, …);
+                    marks[c] = G.ERR_CYCLE[(n + nsub) % len(G.ERR_CYCLE)]  # neighbours differ in class: "which cell's exception" is observable
                     drive[0, c[0], c[1]] = marks[c]
+                    shapes_seen[G.ERRSHAPE[marks[c]]] = shapes_seen.get(G.ERRSHAPE[marks[c]], 0) + 1
                 classes = [ERRNAME[marks[c]] for c in cells if c in marks]
                 # quick: every subset serial + one process count per flag; thorough / boost: all three process counts
                 procs = list(nprocs_all) if (tier != "quick" or boost) else [nprocs_all[nsub % 3]]
@@ -122,6 +127,46 @@ def run(tier, res, force_search=False):
                         expect.append((label, {**case, "failsafe": failsafe, "sched": sched}, G.canon(r),
                                        (["error " + c for c in classes] if (classes and not failsafe) else None)))
             exhaustive.append({"grid": f"{nx}x{ny}", "kind": kind, "subsets": nsub})
+    # ---- every exception shape as the only failure, and all shapes at once (both probes, a non-square grid)
+    for kind in ("deb", "dc"):
+        deb = G.make(kind)
+        nx, ny = rng.choice([(2, 3), (3, 2), (1, 4)])
+        cells = [(i, j) for i in range(nx) for j in range(ny)]
+        nprs = np.random.RandomState(rng.randint(0, 2**31 - 1))
+        To, Th, Tf = rng.randint(1, 5), rng.randint(1, 5), rng.randint(1, 5)
+        obs0, hist0, fut0 = (G.rand_data(nprs, T, nx, ny, np.float64) for T in (To, Th, Tf))
+        out_T = To if kind == "dc" else Tf
+        clean_r = G.run_apply(deb, obs0, hist0, fut0)
+        if clean_r[0] != "ok":
+            problems.append((f"clean run of the probe raised {clean_r[1]}: {clean_r[2]}", {"kind": kind, "nx": nx, "ny": ny}))
+            continue
+        plans = [((rng.choice(cells),), (m,)) for m in G.ERR_CYCLE]
+        allc = tuple(rng.sample(cells, min(len(cells), len(G.ERR_CYCLE))))
+        plans.append((tuple(sorted(allc)), tuple(G.ERR_CYCLE[: len(allc)])))
+        for S, ms in plans:
+            obs, hist, fut = obs0.copy(), hist0.copy(), fut0.copy()
+            drive = obs if kind == "dc" else fut
+            marks = dict(zip(S, ms))
+            for c, m in marks.items():
+                drive[0, c[0], c[1]] = m
+                shapes_seen[G.ERRSHAPE[m]] = shapes_seen.get(G.ERRSHAPE[m], 0) + 1
+            classes = [ERRNAME[marks[c]] for c in cells if c in marks]
+            procs = [rng.choice(nprocs_all)] if (tier == "quick" and not boost) else list(nprocs_all)
+            case = dict(what="user-defined/" + kind, kind=kind, nx=nx, ny=ny, To=To, Th=Th, Tf=Tf, dtype="float64", S=[list(c) for c in S],
+                        markers=list(ms), exception_shapes=[G.ERRSHAPE[m] for m in ms], nprocs=procs)
+            pcase = {**case, **G.pack(obs, hist, fut), **G.pack(obs0, hist0, fut0, "clean_")}
+            for failsafe in (True, False):
+                runs = [("serial", True, G.run_apply(deb, obs, hist, fut, failsafe=failsafe))]
+                runs += [(f"parallel/{p}", False, G.run_apply(deb, obs, hist, fut, parallel=True, nproc=p, failsafe=failsafe)) for p in procs]
+                for label, serial, r in runs:
+                    if failsafe:
+                        check_failsafe_on(label, r, clean_r[1], set(S), cells, out_T, problems, pcase)
+                    else:
+                        check_failsafe_off(label, r, clean_r[1], classes, serial, problems, pcase)
+                res.count((kind, nx, ny, S, ms, failsafe), True, sample={**case, "failsafe": failsafe, "serial": G.canon(runs[0][2])[:60]} if len(S) == 1 and ms[0] == G.M_ASSERT else None)
+                lines.append(G.grid_line(kind, "serial", failsafe, obs, hist, fut, []))
+                expect.append(("serial", {**case, "failsafe": failsafe}, G.canon(runs[0][2]), None))
+    res.extra["exception_shapes_raised"] = shapes_seen
     res.extra["exhaustive_subsets"] = exhaustive
     res.extra["all_subsets_of_each_grid_enumerated"] = all(e["subsets"] == 2 ** (int(e["grid"][0]) * int(e["grid"][2])) for e in exhaustive)
 
